@@ -742,6 +742,9 @@ namespace cgi {
 				return false;
 			++p;
 			p=cppcms::http::protocol::skip_ws(p,e);
+			// optional white space after the value is not part of it
+			while(e > p && (e[-1]==' ' || e[-1]=='\t'))
+				--e;
 			char *value = pool_.alloc(e-p+1);
 			*std::copy(p,e,value) = 0;
 			for(unsigned i=0;i<name_size;i++) {
